@@ -149,13 +149,15 @@ CHECKS = {
         rule="(schedules) for the row-pipelined lossy encoder rapid draws a perturbation plan for the verif-tagged Yield hook (sites: row claim, wait entry, wait after registering as waiter, signal entry, signal after storing progress, before export; per row class; runtime.Gosched x1-20 or sleep 1-200 us) and a worker count 2-6 (Workers hook) on pictures with >=4 macroblock rows, Method 3-6; oracle: bytes equal the same pipelined encode with ONE worker and no perturbation; a 90 s watchdog turns a deadlock/lost wake-up into a reported hang with a goroutine dump. "
              "(concurrent API) 2-10 goroutines run generated call lists (Encode lossy/lossless, Decode/DecodeConfig/GetFeatures of intact and damaged files, animation encode and playback) at GOMAXPROCS 2-16 sharing the internal pools; oracle: every result equals the result of the same call run alone from a fresh state; returned values stay intact. "
              "(lossless sections) pictures above the 50,000-pixel threshold (collage/tiled/photo/palette content, Quality>=90 bias) are encoded and decoded by 1-3 goroutines at GOMAXPROCS 3-16 and compared with the result obtained with every parallel section pinned to one worker (Workers hook). "
+             "(fresh process) the test binary re-executes itself per case; in the new process the generated calls (2-8 goroutines, often identical, Encode with freely drawn options incl. SharpYUV/targets/lossless, decodes, animations) are the FIRST use of the package and run concurrently, so every lazily initialised table or pool is initialised under contention; the child then computes the stand-alone results and compares. "
              "All parts also run under the Go race detector (any DATA RACE report is a violation). "
-             "Non-trivial: >=4 rows claimed by the pipeline, or >=2 goroutines with at least one pool hit; distinct = (plan kinds, worker count, Method) / (goroutines, procs, op mix, calls).",
+             "Non-trivial: >=4 rows claimed by the pipeline, or >=2 goroutines with at least one pool hit, or a fresh-process case that reached a verdict; distinct = (plan kinds, worker count, Method) / (goroutines, procs, op mix, calls).",
         assumptions=["the Go scheduler is perturbed at the hooked points and by GOMAXPROCS/load, not enumerated: an interleaving inside an unhooked critical region can be missed", "race detector findings depend on the schedules that actually occur"],
         tests=[dict(name="TestC10Sched", quick=320, thorough=16000), dict(name="TestC10Conc", quick=64, thorough=4000),
                dict(name="TestC10Lossless", quick=64, thorough=3000),
                dict(name="TestC10Sched", quick=32, thorough=1200, variant="race"), dict(name="TestC10Conc", quick=16, thorough=640, variant="race"),
-               dict(name="TestC10Lossless", quick=16, thorough=600, variant="race")],
+               dict(name="TestC10Lossless", quick=16, thorough=600, variant="race"),
+               dict(name="TestC10Fresh", quick=240, thorough=16000), dict(name="TestC10Fresh", quick=48, thorough=3000, variant="race")],
     ),
     "C13": dict(
         level="exploration",
